@@ -4,8 +4,8 @@ CONSTANTS
   Preset = "keys"
   K = {0, 1, 2}
   MaxRows = 3
-  MaxVal = 3
-  Modes2 = {"plain", "ignore", "replace", "odku"}
+  MaxVal = 2
+  Modes2 = {"plain", "replace"}
   MaxId = 6
 VIEW View
 CONSTRAINT Bounded
